@@ -30,7 +30,7 @@ pub fn def() -> CheckDef {
         },
         gen,
         run,
-        rule: "the 'foreign writer' actor: drawn logical content (<= 300 entries, sibling sets up to 200 names incl. non-ASCII and supplementary-plane names, stream sizes around 64/4096/sector boundaries) laid out by the independent writer imgwr under a drawn layout plan - sector permutation 0-100 %, free sectors interleaved, fragmented and back-to-front chains, FAT/MiniFAT/directory sectors anywhere, directory slots permuted with unallocated gaps, balanced or insertion-built valid red-black sibling trees, fragmented mini stream, V3 or V4; the first case(s) of a run force > 109 FAT sectors (DIFAT sectors). Harness self-check first: imgck must find the image clean and read back the same content (else exit 2). Oracle: open and open_strict succeed; the API dump equals the content given to the writer in both modes; drawn partial reads agree; then a drawn mutation history (<= 15 ops) runs with C01's model, C02's reopen and C03's image rules after every step. Non-trivial: the image was opened and >= 1 mutation succeeded; distinct = distinct (seam log, final image) hash.",
+        rule: "the 'foreign writer' actor: drawn logical content (<= 300 entries, sibling sets up to 200 names incl. non-ASCII and supplementary-plane names, stream sizes around 64/4096/sector boundaries) laid out by the independent writer imgwr under a drawn layout plan - sector permutation 0-100 %, free sectors interleaved, fragmented and back-to-front chains, FAT/MiniFAT/directory sectors anywhere, directory slots permuted with unallocated gaps, balanced or insertion-built valid red-black sibling trees, fragmented mini stream, V3 or V4; the first case(s) of a run force > 109 FAT sectors (DIFAT sectors). Harness self-check first: imgck must find the image clean and read back the same content (else exit 2). Oracle: open and open_strict succeed; the API dump equals the content given to the writer in both modes; drawn partial reads agree; then a drawn mutation history (<= 15 ops) runs with C01's model, C02's reopen and C03's image rules after every step. Non-trivial: the image was opened and >= 1 mutation succeeded; distinct = distinct (seam log, final image) hash. One case in 16 is a DIFAT-boundary layout: a small file whose DIFAT is exactly full (109 + 127k FAT sectors, k = 1..3; version 4: 109 + 1023) followed by a write that grows the file across the next FAT-sector boundary, so that the library has to start the next DIFAT sector and link it to the end of the chain.",
         assumptions: &["imgwr emits strictly spec-valid files (checked by imgck on every case); root creation time 0 and V3 size high bits 0 as the specification demands"],
         cpu_limit_s: 600,
         fault_kinds: "initial disk image written by a foreign implementation (layout plan drawn per case)",
